@@ -11,7 +11,7 @@ import os
 import vlib
 
 LEVEL = "model_checking"
-INV = "Bijection InverseA InverseB FastIsRef WrapPeriodic Partition LineMajor NeighboursConsistent SpacingsConsistent Antipodal AutoSplitAssumptions CoarsenKeeps"
+INV = "Bijection InverseA InverseB FastIsRef WrapPeriodic Partition LineMajor NeighboursConsistent SpacingsConsistent Antipodal AutoSplitAssumptions CoarsenKeeps CacheDerivation"
 
 
 def cfg(name, nrs, nts, uniform, emit, spacing="{1,2,3}"):
